@@ -441,14 +441,18 @@ Section CBC.
 End CBC.
 
 (* the checks the object makes before it touches the cipher (status machine, no cipher involved):
-   ops: set_key with a key of n bytes, set_iv with n bytes, set_nonce_iv, encrypt, decrypt *)
+   ops: set_key with a key of n bytes, set_iv with n bytes, set_nonce_iv, encrypt, decrypt.
+   set_key: once key_ is non-empty every further set_key throws runtime_error (whatever the size of the new key)
+   and leaves the object unchanged; otherwise the size is checked against key_size(). *)
 Inductive cbc_op := OpKey (n : N) | OpIv (n : N) | OpNonce | OpEnc | OpDec.
-Inductive cbc_status := StOk | StBadKeySize | StBadIvSize | StNoKey | StNoIv.
+Inductive cbc_status := StOk | StBadKeySize | StBadIvSize | StNoKey | StNoIv | StKeyTwice.
 Definition cbc_ctl : Type := (bool * bool)%type.    (* key set (non-empty), iv initialised *)
 Definition cbc_ctl_step (key_size : N) (st : cbc_ctl) (op : cbc_op) : cbc_status * cbc_ctl :=
   let '(k, i) := st in
   match op with
-  | OpKey n => if n =? key_size then (StOk, (true, i)) else (StBadKeySize, st)
+  | OpKey n => if k then (StKeyTwice, st)
+               else if n =? key_size then (StOk, (negb (n =? 0), i))     (* key_ = k: non-empty iff n <> 0 *)
+               else (StBadKeySize, st)
   | OpIv n => if n =? 16 then (StOk, (k, true)) else (StBadIvSize, st)
   | OpNonce => (StOk, (k, true))
   | OpEnc | OpDec => if negb k then (StNoKey, st) else if negb i then (StNoIv, st) else (StOk, st)
@@ -464,6 +468,118 @@ Fixpoint cbc_ctl_state (ks : N) (st : cbc_ctl) (ops : list cbc_op) : cbc_ctl :=
 Definition keyed (ks : N) (ops : list cbc_op) : bool := existsb (fun op => match op with OpKey n => n =? ks | _ => false end) ops.
 Definition ived (ops : list cbc_op) : bool :=
   existsb (fun op => match op with OpIv n => n =? 16 | OpNonce => true | _ => false end) ops.
+
+(* cbc::create(std::string const &name): exact spellings only (no case folding); result = key_size() of the object, None = null pointer *)
+Definition cbc_by_name (name : list N) : option N :=
+  let is := fun (l : list (list N)) => existsb (leqb name) l in
+  if is [[97;101;115]; [65;69;83]; [97;101;115;49;50;56]; [97;101;115;45;49;50;56]; [65;69;83;49;50;56]; [65;69;83;45;49;50;56]] then Some 16
+  else if is [[97;101;115;49;57;50]; [97;101;115;45;49;57;50]; [65;69;83;49;57;50]; [65;69;83;45;49;57;50]] then Some 24
+  else if is [[97;101;115;50;53;54]; [97;101;115;45;50;53;54]; [65;69;83;50;53;54]; [65;69;83;45;50;53;54]] then Some 32
+  else None.
+
+(* ---------- the whole cbc object (src/aes.cpp openssl_aes_encryptor), key material included ----------
+   E k / Dc k: the block functions under the key bytes k (AES_set_encrypt_key / AES_set_decrypt_key followed by the
+   block primitive inside AES_cbc_encrypt).  The object expands key_ into key_enc_ / key_dec_ lazily, on the first
+   encrypt / decrypt, and never again (encryption_initialized_ / decryption_initialized_): o_kenc / o_kdec record the
+   key bytes the schedule in use was expanded from.  set_nonce_iv draws two independent random IVs: they are operands
+   of the ONonce operation here. *)
+Section CbcObject.
+  Variable E Dc : list N -> list N -> list N.
+  Variable ks : N.                                   (* key_size() = type_ / 8 *)
+  Record cbc_obj := mk_obj {
+    o_key : list N;                 (* key_ *)
+    o_kenc : option (list N);       (* Some k: encryption_initialized_, key_enc_ expanded from k *)
+    o_kdec : option (list N);       (* Some k: decryption_initialized_, key_dec_ expanded from k *)
+    o_ivok : bool;                  (* iv_initialized_ *)
+    o_ivs : cbc_state }.            (* iv_enc_, iv_dec_ *)
+  Definition obj_new : cbc_obj := mk_obj [] None None false (mk_cbc (repeat 0 16) (repeat 0 16)).   (* reset() *)
+  Inductive obj_op := OKey (k : list N) | OIv (iv : list N) | ONonce (ive ivd : list N) | OEnc (p : list N) | ODec (c : list N).
+  (* check() *)
+  Definition obj_check (o : cbc_obj) : cbc_status :=
+    if len (o_key o) =? 0 then StNoKey else if negb (o_ivok o) then StNoIv else StOk.
+  Definition obj_step (o : cbc_obj) (op : obj_op) : cbc_status * list N * cbc_obj :=
+    match op with
+    | OKey k =>
+        if negb (len (o_key o) =? 0) then (StKeyTwice, [], o)
+        else if negb (len k =? ks) then (StBadKeySize, [], o)
+        else (StOk, [], mk_obj k (o_kenc o) (o_kdec o) (o_ivok o) (o_ivs o))
+    | OIv iv =>
+        if negb (len iv =? 16) then (StBadIvSize, [], o)
+        else (StOk, [], mk_obj (o_key o) (o_kenc o) (o_kdec o) true (cbc_set_iv iv))
+    | ONonce ive ivd => (StOk, [], mk_obj (o_key o) (o_kenc o) (o_kdec o) true (mk_cbc ive ivd))
+    | OEnc p =>
+        match obj_check o with
+        | StOk => let k := match o_kenc o with Some k => k | None => o_key o end in
+                  let '(out, ivs) := cbc_encrypt (E k) (o_ivs o) p in
+                  (StOk, out, mk_obj (o_key o) (Some k) (o_kdec o) (o_ivok o) ivs)
+        | s => (s, [], o)
+        end
+    | ODec c =>
+        match obj_check o with
+        | StOk => let k := match o_kdec o with Some k => k | None => o_key o end in
+                  let '(out, ivs) := cbc_decrypt (Dc k) (o_ivs o) c in
+                  (StOk, out, mk_obj (o_key o) (o_kenc o) (Some k) (o_ivok o) ivs)
+        | s => (s, [], o)
+        end
+    end.
+  Fixpoint obj_run (o : cbc_obj) (ops : list obj_op) : list (cbc_status * list N) :=
+    match ops with
+    | [] => []
+    | op :: r => let '(s, out, o') := obj_step o op in (s, out) :: obj_run o' r
+    end.
+
+  (* specification: an object that is GIVEN its one key K (or none) at birth.  set_key only moves it from
+     "not yet keyed" to "keyed" when the offered key has the right size; the key bytes of later offers are never
+     looked at; every encrypt / decrypt it serves is CBC under K. *)
+  Record ref_obj := mk_ref { r_keyed : bool; r_ivok : bool; r_ivs : cbc_state }.
+  Definition ref_new : ref_obj := mk_ref false false (mk_cbc (repeat 0 16) (repeat 0 16)).
+  Definition ref_step (K : list N) (o : ref_obj) (op : obj_op) : cbc_status * list N * ref_obj :=
+    match op with
+    | OKey k =>
+        if r_keyed o then (StKeyTwice, [], o)
+        else if negb (len k =? ks) then (StBadKeySize, [], o)
+        else (StOk, [], mk_ref true (r_ivok o) (r_ivs o))
+    | OIv iv =>
+        if negb (len iv =? 16) then (StBadIvSize, [], o) else (StOk, [], mk_ref (r_keyed o) true (cbc_set_iv iv))
+    | ONonce ive ivd => (StOk, [], mk_ref (r_keyed o) true (mk_cbc ive ivd))
+    | OEnc p =>
+        if negb (r_keyed o) then (StNoKey, [], o) else if negb (r_ivok o) then (StNoIv, [], o)
+        else let '(out, ivs) := cbc_encrypt (E K) (r_ivs o) p in (StOk, out, mk_ref true true ivs)
+    | ODec c =>
+        if negb (r_keyed o) then (StNoKey, [], o) else if negb (r_ivok o) then (StNoIv, [], o)
+        else let '(out, ivs) := cbc_decrypt (Dc K) (r_ivs o) c in (StOk, out, mk_ref true true ivs)
+    end.
+  Fixpoint ref_run (K : list N) (o : ref_obj) (ops : list obj_op) : list (cbc_status * list N) :=
+    match ops with
+    | [] => []
+    | op :: r => let '(s, out, o') := ref_step K o op in (s, out) :: ref_run K o' r
+    end.
+  (* the one key of a call sequence: the first offered key of the right size *)
+  Fixpoint first_key (ops : list obj_op) : list N :=
+    match ops with
+    | [] => []
+    | OKey k :: r => if len k =? ks then k else first_key r
+    | _ :: r => first_key r
+    end.
+  (* the shape of an operation, as the status machine sees it *)
+  Definition op_shape (op : obj_op) : cbc_op :=
+    match op with OKey k => OpKey (len k) | OIv iv => OpIv (len iv) | ONonce _ _ => OpNonce | OEnc _ => OpEnc | ODec _ => OpDec end.
+  (* two call sequences that differ only in the key bytes (and sizes) offered by set_key calls AFTER the first accepted one *)
+  Fixpoint same_but_later_keys (seen : bool) (a b : list obj_op) : Prop :=
+    match a, b with
+    | [], [] => True
+    | OKey k :: a', OKey k' :: b' =>
+        if seen then same_but_later_keys true a' b'
+        else k = k' /\ same_but_later_keys (len k =? ks) a' b'
+    | OIv x :: a', OIv y :: b' => x = y /\ same_but_later_keys seen a' b'
+    | ONonce x1 x2 :: a', ONonce y1 y2 :: b' => x1 = y1 /\ x2 = y2 /\ same_but_later_keys seen a' b'
+    | OEnc x :: a', OEnc y :: b' => x = y /\ same_but_later_keys seen a' b'
+    | ODec x :: a', ODec y :: b' => x = y /\ same_but_later_keys seen a' b'
+    | _, _ => False
+    end.
+End CbcObject.
+(* all output bytes of a run, in order *)
+Definition outputs (tr : list (cbc_status * list N)) : list N := concat (map snd tr).
 
 (* =====================================================================================
    FIPS 180-4 section 6.1.2 (SHA-1 hash computation) written from the standard's text, independently of the
